@@ -95,6 +95,12 @@ class Tables:
         val = p.fget(cls("d0"))
         return int(val._slot_index) if isinstance(val, self._slot_base) else None
 
+    def class_of_hash(self, h):
+        """name of the structure class whose prefab name has the hash h (None if there is none)"""
+        if not hasattr(self, "_by_hash"):
+            self._by_hash = {crc(p): n for n, p in self.singular.items()}
+        return self._by_hash.get(h)
+
     def lt(self, name):
         if name not in self.enums["LogicType"]:
             raise Outside("unknown logic type " + name)
@@ -245,6 +251,28 @@ class Conv:
                 idx = self.T.slot_index(d[2], base.attr)
                 if idx is not None:
                     return ("ls", "ss", [d[1], self.num(idx), self.num(self.T.st(e.attr))])
+        # batch slot read: Plural.Slot.SlotType.Method  /  Plural["n"].Slot.SlotType.Method ; batch slot write: Plural.Slot.SlotType = v
+        if e.attr in BATCH and isinstance(base, ast.Attribute) and base.attr in self.T.enums["LogicSlotType"] and isinstance(base.value, ast.Attribute):
+            try:
+                d = self.device_of(base.value.value)
+            except Outside:
+                d = None
+            if d is not None and d[0] in ("plural", "named"):
+                idx = self.T.slot_index(self.T.class_of_hash(d[1]), base.value.attr)
+                if idx is not None:
+                    tail = [self.num(idx), self.num(self.T.st(base.attr)), self.num(self.T.bm(e.attr))]
+                    if d[0] == "plural":
+                        return ("lbs", None, [self.num(d[1])] + tail)
+                    return ("lbns", None, [self.num(d[1]), d[2]] + tail)
+        if e.attr in self.T.enums["LogicSlotType"] and isinstance(base, ast.Attribute):
+            try:
+                d = self.device_of(base.value)
+            except Outside:
+                d = None
+            if d is not None and d[0] == "plural":
+                idx = self.T.slot_index(self.T.class_of_hash(d[1]), base.attr)
+                if idx is not None:
+                    return (None, "sbs", [self.num(d[1]), self.num(idx), self.num(self.T.st(e.attr))])
         # batch with the method last: Plural.Attr.Method   /  Plural["n"].Attr.Method
         if e.attr in BATCH and isinstance(base, ast.Attribute):
             try:
